@@ -52,14 +52,35 @@ def refactors_table() -> str:
     rdir = V / "refactors"
     if not rdir.is_dir():
         return "(none yet)"
-    rows = ["| refactoring (round) | what was restructured | files | verdict of `./check ALL` on it |", "|---|---|---|---|"]
+    rows = ["| refactoring (round) | what was restructured | files | at arrival | now |", "|---|---|---|---|---|"]
     for d in sorted(rdir.iterdir()):
         mp = d / "meta.json"
         if not mp.exists():
             continue
         m = json.loads(mp.read_text())
         files = ", ".join(Path(f).name for f in (m.get("files") or []))
-        rows.append(f"| {d.name} ({m.get('wave', 1)}) | {(m.get('title') or '').replace('|', '/')} | {files} | {str(m.get('verdict', '?'))[:600].replace('|', '/')} |")
+        def short(v: object) -> str:
+            v = str(v or "?")
+            if v.startswith("SILENT"):
+                return "silent"
+            mm = re.findall(r"\b(C\d\d)\b", v.split(":", 1)[0] if v.startswith("DIFFERS for") else v)
+            return "differs: " + ", ".join(sorted(set(mm))) if mm else v[:80]
+
+        rows.append(f"| {d.name} ({m.get('wave', 1)}) | {(m.get('title') or '').replace('|', '/')[:160]} | {files} | "
+                    f"{short(m.get('verdict_at_arrival'))} | {short(m.get('verdict'))} |")
+    n_arr = {1: [0, 0], 2: [0, 0], 3: [0, 0]}
+    for d in sorted(rdir.iterdir()):
+        mp = d / "meta.json"
+        if mp.exists():
+            m = json.loads(mp.read_text())
+            w = m.get("wave", 1)
+            n_arr.setdefault(w, [0, 0])
+            n_arr[w][0] += 1 if str(m.get("verdict_at_arrival", "")).startswith("SILENT") else 0
+            n_arr[w][1] += 1 if str(m.get("verdict", "")).startswith("SILENT") else 0
+    tot = {w: sum(1 for d in rdir.iterdir() if (d / "meta.json").exists() and json.loads((d / "meta.json").read_text()).get("wave", 1) == w)
+           for w in n_arr}
+    rows.append("")
+    rows.append("Silent for all 18 checks: " + "; ".join(f"round {w}: {a} of {tot[w]} at arrival, {b} of {tot[w]} now" for w, (a, b) in sorted(n_arr.items()) if tot[w]) + ".")
     return "\n".join(rows)
 
 
